@@ -253,7 +253,7 @@ func getProtoLabelIndices(ctx *datastore.VersionedCtx, dataIn []byte) (numLabels
 	return
 }
 
-// batch mode put/delete using protobuf indices without caching
+// batch mode put/delete using protobuf indices; written indices are not cached, stale cached ones are dropped
 func putProtoLabelIndices(ctx *datastore.VersionedCtx, dataIn []byte) (numAdded, numDeleted int, err error) {
 	data := ctx.Data()
 	var store storage.KeyValueDB
@@ -275,8 +275,15 @@ func putProtoLabelIndices(ctx *datastore.VersionedCtx, dataIn []byte) (numAdded,
 			err = fmt.Errorf("index %d had label 0, which is a reserved label", i)
 			return
 		}
+		// The batch writes go to the store only, so a cached copy of a written or deleted
+		// index must be dropped (under the label's shard lock, like every other index write)
+		// or later reads would keep returning the index as it was before this request.
+		shard := protoIdx.Label % numIndexShards
 		if len(protoIdx.Blocks) == 0 {
-			if err = deleteLabelIndex(ctx, protoIdx.Label); err != nil {
+			indexMu[shard].Lock()
+			err = deleteCachedLabelIndex(data, ctx.VersionID(), protoIdx.Label)
+			indexMu[shard].Unlock()
+			if err != nil {
 				return
 			}
 			numDeleted++
@@ -284,7 +291,13 @@ func putProtoLabelIndices(ctx *datastore.VersionedCtx, dataIn []byte) (numAdded,
 		}
 		numAdded++
 		idx := labels.Index{LabelIndex: *protoIdx}
-		if err = putLabelIndex(store, ctx, data, &idx); err != nil {
+		indexMu[shard].Lock()
+		err = putLabelIndex(store, ctx, data, &idx)
+		if indexCache != nil {
+			indexCache.Del(indexKey{data: data, version: ctx.VersionID(), label: idx.Label}.Bytes())
+		}
+		indexMu[shard].Unlock()
+		if err != nil {
 			return
 		}
 		if idx.Label > maxLabel {
